@@ -733,6 +733,11 @@ func (m *Model) Step(op *Op, res *Res) (bool, string) {
 		if u == nil {
 			return true, ""
 		}
+		if u.Committed && res.Err != nil {
+			// a session that has been committed may be over: whether it takes more data
+			// is not something the statements settle (a refusal changes nothing)
+			return true, ""
+		}
 		if u.Check != -1 && u.Check != int64(len(u.Buf)) {
 			ok, why := m.wantFail(res.Err, fmt.Sprintf("Write at stale offset %d (registry has %d bytes)", u.Check, len(u.Buf)), ociregistry.ErrRangeInvalid)
 			return ok, why
